@@ -9,7 +9,7 @@ use std::time::Instant;
 pub const VERIF_DIR: &str = "/verif";
 pub const DEFAULT_SEED: u64 = 0x5EED_C0DE;
 /// multiplier applied to every sub-check's base quick count
-pub const QUICK_SCALE: u32 = 4;
+pub const QUICK_SCALE: u32 = 12;
 
 pub struct RunOpts {
     pub tier: String,
@@ -77,8 +77,12 @@ pub fn run_property(p: &Property, opts: &RunOpts) -> RunResult {
     let subs: Vec<&SubCheck> = p
         .subchecks
         .iter()
-        .filter(|s| opts.only.as_ref().map_or(true, |o| s.name == o || s.name.starts_with(o.as_str())))
+        .filter(|s| opts.only.as_ref().map_or(true, |o| o.split(',').any(|o| s.name == o || s.name.starts_with(o))))
         .collect();
+    if subs.is_empty() {
+        eprintln!("INCONCLUSIVE property={} no sub-check matches --only {:?}", p.id, opts.only);
+        return RunResult { exit: 2 };
+    }
     let jobs: Vec<(usize, u32)> =
         (0..subs.len()).flat_map(|i| (0..shards).map(move |s| (i, s))).collect();
     let next = std::sync::atomic::AtomicUsize::new(0);
